@@ -131,6 +131,43 @@ def in_live(spec):
     return True
 
 
+def rand_fan(seed):
+    """A fast receiver with two or three slow non-blocking senders that in turn listen to the receiver (skipped back-edges): one
+    sender timestamp makes several receiver ticks selectable at once on each input, so every handler that processes one queue
+    entry per event must be re-triggered for the rest (non-blocking analogue of rand_blk)."""
+    rnd = random.Random(seed * 7901 + 3)
+    rf = rnd.choice([25, 33, 40, 50])
+    small = lambda r: rand_dist(rnd, 0.3 / r, kinds=("det0", "det", "norm", "norm"))
+    cd = lambda: rand_dist(rnd, 0.01, kinds=("det0", "det", "norm"))
+    nodes = [dict(name="n0", rate=rf, delay=small(rf), scheduling=rnd.choice("FP"), advance=False)]
+    conns = []
+    for k in range(1, rnd.choice([3, 3, 4])):
+        rs = rnd.choice([4, 5, 8, 10])
+        nodes.append(dict(name=f"n{k}", rate=rs, delay=small(rs), scheduling=rnd.choice("FP"), advance=False))
+        conns.append(dict(out=f"n{k}", inp="n0", window=rnd.randint(1, 3), skip=False, blocking=False, jitter=rnd.choice("LLB"), delay=cd()))
+        conns.append(dict(out="n0", inp=f"n{k}", window=rnd.randint(1, 4), skip=True, blocking=False, jitter=rnd.choice("LLB"), delay=cd()))
+    return dict(seed=seed, nodes=nodes, conns=conns, supervisor=rnd.choice(["n0", "n1"]))
+
+
+def in_wide(spec):
+    """G_wide: everything except a blocking connection from a strictly faster sender to a slower receiver (the one shape for which
+    the source documents that num_tokens = 10 may be too low). Overruns and blocking+skip are allowed (recalibrated after repairs
+    5.1-m/n: 0 stalls in 765 such graphs, against 20 in 765 graphs with a blocking fast->slow edge)."""
+    rate = {n["name"]: n["rate"] for n in spec["nodes"]}
+    return not any(c["blocking"] and rate[c["out"]] > rate[c["inp"]] for c in spec["conns"])
+
+
+def rand_wide(seed, **kw):
+    s = seed * 1000
+    while True:
+        spec = rand_spec(s, **kw)
+        if in_wide(spec) and not in_live(spec):
+            spec["seed"] = seed
+            spec["gen_seed"] = s
+            return spec
+        s += 1
+
+
 def in_gen(spec):
     """What generate_graphs supports."""
     return (not any(c["blocking"] or c["jitter"] == "B" for c in spec["conns"])
